@@ -366,10 +366,21 @@ func sameHolder(a, b *pw.Val) bool {
 	return false
 }
 
+var fieldOwnerCache = map[*types.Var]string{}
+
 func fieldOwnerName(f *types.Var) string {
 	if f == nil || f.Pkg() == nil {
 		return ""
 	}
+	if o, ok := fieldOwnerCache[f.Origin()]; ok {
+		return o
+	}
+	o := fieldOwnerNameSlow(f)
+	fieldOwnerCache[f.Origin()] = o
+	return o
+}
+
+func fieldOwnerNameSlow(f *types.Var) string {
 	sc := f.Pkg().Scope()
 	for _, n := range sc.Names() {
 		tn, ok := sc.Lookup(n).(*types.TypeName)
